@@ -2,7 +2,7 @@
    jinns/loss/_loss_utils.py: each expected term evaluates to the corresponding definition of
    Model/M_lossterms.v, for every batch, component count and weight shape. *)
 From Coq Require Import List Arith Bool Lia ZArith Field_theory Field Ring.
-From JV Require Import Kit.Field Kit.Tx Model.M_lossterms Proofs.P_lossterms.
+From JV Require Import Kit.Field Kit.Tx Model.M_lossterms Model.M_boundary Proofs.P_lossterms.
 Import ListNotations.
 Section P.
 Variable F : fld.
@@ -16,6 +16,9 @@ Definition diff_expected : tx := XMeanAll (XSumLast (XMul (XIn 2) (XSq (XSub (XI
 (* w * jnp.mean(jnp.abs(jnp.mean(u, axis=(-2, -1)) * L - 1) ** 2) *)
 Definition norm_expected : tx := XMul (XIn 2) (XMeanAll (XSq (XSub (XMul (XIn 1) (XMeanLast2 (XIn 0))) (XInt 1)))).
 
+Lemma combine_map_l' {A B C} (g : A -> C) (l : list A) (l' : list B) :
+  combine (map g l) l' = map (fun p => (g (fst p), snd p)) (combine l l').
+Proof. revert l'. induction l as [|a l IH]; intros [|b l']; cbn [map combine]; try reflexivity. rewrite IH. reflexivity. Qed.
 Lemma sumK_cons (x : F) l : sumK (x :: l) = x + sumK l.
 Proof. reflexivity. Qed.
 Lemma wsum_scalar_sem x r : sumK (map (kmul x) (map (@sq F) r)) = wsum F (WScalar x) r.
@@ -74,4 +77,20 @@ Theorem norm_nonstatio_expected_sem w L ms : tsem F [T3 ms; T0 L; T0 w] norm_exp
 Proof. unfold norm_expected, norm_term_nonstatio, norm_one, mean_all. cbn [tsem nth_error obind bop usq mean_last2 mean_all_t].
   rewrite of_Z_1. f_equal. f_equal. rewrite !map_map. unfold meanK. rewrite !map_length, !div_def'.
   rewrite (sumK_map_scal F w). ring. Qed.
+
+(* boundary term: one facet = jnp.mean(loss_weight * per-point squared mismatch); Dirichlet per-point
+   mismatch = jnp.sum((u[dim_to_apply] - f) ** 2, axis=-1) *)
+Definition facet_expected : tx := XMeanAll (XMul (XIn 0) (XIn 1)).
+Definition dirichlet_expected : tx := XSumLast (XSq (XSub (XIn 0) (XIn 1))).
+Theorem facet_expected_sem w vals : tsem F [T1 vals; T0 w] facet_expected = Some (T0 (facet_term F w vals)).
+Proof. unfold facet_expected, facet_term. cbn [tsem nth_error obind bop mean_all_t]. do 3 f_equal. apply map_ext. intro v. ring. Qed.
+Theorem dirichlet_expected_sem (us fs : list (list F)) lo hi :
+  Forall (fun l => length l <> 1%nat) fs ->
+  tsem F [T2 (map (take_slice lo hi) us); T2 fs] dirichlet_expected =
+  Some (T1 (map (fun p => dirichlet_point F (fst p) lo hi (FVec (snd p))) (combine us fs))).
+Proof. intro Hf. unfold dirichlet_expected. cbn [tsem nth_error obind bop usq sum_last]. do 2 f_equal.
+  unfold zipw. rewrite !map_map. rewrite combine_map_l'. rewrite map_map. apply map_ext_in. intros [u f] Hin. cbn [fst snd].
+  unfold dirichlet_point, sumsq, minus_f. assert (Hl : length f <> 1%nat).
+  { apply in_combine_r in Hin. rewrite Forall_forall in Hf. apply Hf. exact Hin. }
+  destruct f as [|y [|z f]]; try reflexivity. exfalso. apply Hl. reflexivity. Qed.
 End P.
